@@ -591,6 +591,11 @@ def run_history(hist, gss=True, service_request=True, pre=None, post=None, gss_d
     return ex.value
 
 
+CONN_REPLY_NAMES = {81: "request-success", 82: "request-failure", 91: "open-confirmation", 92: "open-failure",
+                    93: "window-adjust", 94: "channel-data", 97: "channel-close", 99: "channel-success",
+                    100: "channel-failure"}
+
+
 def reply_class(o):
     """Abstract reply of one observation (for agreement statistics with authref's `expect`)."""
     kinds = []
@@ -610,7 +615,7 @@ def reply_class(o):
         elif t[0] == 3:
             kinds.append("unimplemented")
         elif t[0] != 53:
-            kinds.append("msg-%d" % t[0])
+            kinds.append(CONN_REPLY_NAMES.get(t[0], "msg-%d" % t[0]))
     return "+".join(kinds) if kinds else "none"
 
 
